@@ -811,6 +811,47 @@ class TxGen:
             tr.add_descriptor(nd)
         return 'descr create context-descriptor'
 
+    def tx_touch_and_drop(self):
+        """the application gets a state, writes into its nested objects and then drops it again (`unget_state`, or an
+        exception leaves the with-block): the provider MDIB must not change for that state; with `unget` something else is
+        committed in the same transaction"""
+        kind = self.rng.choice(['metric', 'metric', 'rt'])
+        name = 'NumericMetricDescriptor' if kind == 'metric' else 'RealTimeSampleArrayMetricDescriptor'
+        hs = [h for h in _handles(self.mdib, lambda d: d.NODETYPE.localname == name)
+              if self.mdib.states.descriptor_handle.get_one(h).MetricValue is not None]
+        if len(hs) < 2:
+            # give the states a value first (the nested object has to exist)
+            return self.tx_metric() if kind == 'metric' else self.tx_rt()
+        victim, other = self.rng.sample(hs, 2)
+        mode = self.rng.choice(['unget', 'unget', 'abort'])
+        factory = self.mdib.metric_state_transaction if kind == 'metric' else self.mdib.rt_sample_state_transaction
+
+        def scribble(st):
+            if kind == 'metric':
+                st.MetricValue.Value = Decimal(self.rng.randint(100000, 999999))
+            else:
+                st.MetricValue.Samples = [Decimal(self.rng.randint(1000, 9999))]
+            st.MetricValue.MetricQuality.Validity = self.pm_types.MeasurementValidity.INVALID
+            st.MetricValue.DeterminationTime = 12345.0
+
+        class _Abort(Exception):
+            pass
+        try:
+            with factory() as tr:
+                st = tr.get_state(victim)
+                scribble(st)
+                if mode == 'abort':
+                    raise _Abort
+                tr.unget_state(st)
+                st2 = tr.get_state(other)
+                if kind == 'metric':
+                    st2.MetricValue.Value = Decimal(self.rng.randint(0, 999))
+                else:
+                    st2.MetricValue.Samples = [Decimal(self.rng.randint(-9, 9))]
+        except _Abort:
+            pass
+        return f'touch-and-drop {kind} {mode}'
+
     def tx_empty(self):
         """a transaction that commits without any change (nothing got / written, or a disassociate_all that finds nothing
         associated): no MdibVersion increment, no report"""
@@ -841,7 +882,7 @@ class TxGen:
             tr.write_entity(ent)
         return f'descr update context-clear {len(drop)}/{len(handles)}'
 
-    KINDS = (('tx_empty', 2), ('tx_descr_context_clear', 1), ('tx_descr_delete_context', 1), ('tx_descr_restore_context', 2), ('tx_metric', 5), ('tx_string_metric', 1), ('tx_alert', 3), ('tx_component', 2), ('tx_operational', 2),
+    KINDS = (('tx_touch_and_drop', 2), ('tx_empty', 2), ('tx_descr_context_clear', 1), ('tx_descr_delete_context', 1), ('tx_descr_restore_context', 2), ('tx_metric', 5), ('tx_string_metric', 1), ('tx_alert', 3), ('tx_component', 2), ('tx_operational', 2),
              ('tx_rt', 2), ('tx_context_new', 3), ('tx_context_update', 3), ('tx_context_delete', 1), ('tx_set_location', 2),
              ('tx_descr_update', 5), ('tx_descr_create', 4), ('tx_descr_delete', 3))
 
@@ -2587,6 +2628,18 @@ def scenario_inflight_burst(world, rng):
     return rec.hist, sched
 
 
+def scenario_touch_and_drop(world, rng):
+    """states handed out by get_state are written (nested objects) and then dropped by unget_state / by an aborted
+    transaction: the provider content must stay what the reports said"""
+    gen = TxGen(world, rng)
+    rec = HistoryRecorder(world)
+    w = rec.tx(gen.tx_metric) + rec.tx(gen.tx_metric) + rec.tx(gen.tx_rt) + rec.tx(gen.tx_rt)
+    for _ in range(8):
+        w += rec.tx(gen.tx_touch_and_drop)
+    w += rec.tx(gen.tx_alert)
+    return rec.hist, [('reload', 0, 0, [])] + [('deliver', i) for i in w]
+
+
 def scenario_instance_ids(world, rng):
     """provider InstanceId 0, absent, 7: the version group of the reports has to equal the one of the Get answers; the
     consumer follows after a load in each epoch"""
@@ -2628,7 +2681,7 @@ def scenario_provider_observers(world, rng):
     return rec.hist, [('reload', 0, 0, [])] + [('deliver', i) for i in w]
 
 
-SCENARIOS_BURST = (scenario_inflight_burst, scenario_instance_ids, scenario_provider_observers)
+SCENARIOS_BURST = (scenario_inflight_burst, scenario_instance_ids, scenario_provider_observers, scenario_touch_and_drop)
 SCENARIOS_TWO_MDS = (scenario_two_mds_interleaved,)
 SCENARIO_SETS = {'main': (False, 'SCENARIOS'), 'two_mds': (True, 'SCENARIOS_TWO_MDS'), 'burst': (False, 'SCENARIOS_BURST')}
 
